@@ -28,7 +28,7 @@ type FetchOutcome struct {
 	Chunk int `json:"chunk,omitempty"`
 	// Err selects the flavour of a listerr/chunkerr failure: "" generic error | deadline (wraps
 	// context.DeadlineExceeded) | da-deadline (coreda.ErrContextDeadline) | hang (blocks until the
-	// caller's context ends, then returns its error) | timeout (coreda.ErrTxTimedOut)
+	// caller's context ends, then returns its error) | timeout (coreda.ErrTxTimedOut) | notfound (coreda.ErrBlobNotFound)
 	Err string `json:"err,omitempty"`
 }
 
@@ -40,6 +40,9 @@ func (d *DADbl) fetchErr(ctx context.Context, o FetchOutcome, what string) error
 		return fmt.Errorf("dadbl: %s: %w", what, coreda.ErrContextDeadline)
 	case "timeout":
 		return fmt.Errorf("dadbl: %s: %w", what, coreda.ErrTxTimedOut)
+	case "notfound":
+		// a DA node that lists the ids of a height but cannot serve (all of) the blobs yet
+		return fmt.Errorf("dadbl: %s: %w", what, coreda.ErrBlobNotFound)
 	case "hang":
 		<-ctx.Done()
 		return ctx.Err()
@@ -99,6 +102,9 @@ type DADbl struct {
 	// whatever the number of attempts made during it). DownKind selects the failure (default "error").
 	Down     func() bool
 	DownKind string
+	// SubmitDelay: an accepted submission is answered only after this long, whatever happens to the caller's
+	// context meanwhile (the DA layer has taken the blobs; the answer is on its way).
+	SubmitDelay time.Duration
 
 	dead func() bool
 }
@@ -320,7 +326,11 @@ func (d *DADbl) SubmitWithOptions(ctx context.Context, blobs []coreda.Blob, gasP
 	case "accept":
 		ids, h := store(fit)
 		finish(fmt.Sprintf("accept(%d)", fit), fit, h)
+		delay := d.SubmitDelay
 		d.mu.Unlock()
+		if delay > 0 {
+			time.Sleep(delay)
+		}
 		return ids, nil
 	case "prefix":
 		k := resp.K
